@@ -83,7 +83,8 @@ CLAIMED = {
         text="Theorems C18_bytes/C18_str/C18_stable/C18_stable_long/C18_core (Props/C18.v): for every input containing its "
              "first CR followed by one more byte, or 107 CR-free bytes, the v1 result is complete, and appending bytes "
              "leaves it identical (resp. a terminal error). For all inputs, by case analysis of every site that returns an "
-             "incomplete error. Tie: 295k inputs with extensions.",
+             "incomplete error. C18_bounded / C18_auto_bounded (Proofs/Bounded.v): an incomplete result is never given for an "
+             "input longer than 107 bytes (v1) resp. 65550 bytes (auto-detecting parser). Tie: 295k inputs with extensions.",
         ref="7-C18", technique="Coq proof (terminated window => no incomplete error) + differential correspondence on classification"),
     "C04": dict(
         text="Theorems C04_v1/C04_v2/C04_auto (Props/C04.v): an accepted input followed by ANY bytes, and the reported header "
@@ -91,16 +92,21 @@ CLAIMED = {
              "the first 16+length bytes. For all inputs and all trailers. C04_accepts_frame / C04_pipeline (Proofs/Consume.v): "
              "what the auto-detecting parser accepts is a self-parsing prefix of the input, and a receive loop that removes exactly "
              "the reported header length reads ANY number of back-to-back v1/v2 headers one by one, in order, leaving exactly the "
-             "bytes that follow (induction over the list of headers). Tie: 3.9M cases (inputs x 11 trailers x 3 entry points; "
-             "pipelined concatenations of 3 or 7 headers of both versions through the same loop in the harness and in the model).",
+             "bytes that follow (induction over the list of headers); C04_senders_pipeline: every built v2 header and formatted v1 "
+             "line is such a frame, so any pipeline of the crate's own output is received frame by frame as sent. Tie: 3.9M cases (inputs x 11 trailers x 3 entry points; "
+             "pipelined concatenations of 3 or 7 headers of both versions, and 1-7 frames produced by the crate's Display/Builder, "
+             "through the same loop in the harness and in the model).",
         ref="7-C04", technique="Coq proof (window lemma / closed form of p2; induction over pipelined headers) + metamorphic differential check with trailers and pipelines"),
     "C05": dict(
         text="Theorems C05_v1/C05_v2/C05_v2_auto/C05_flags (Props/C05.v): every proper prefix of every accepted US-ASCII v1 "
              "line is incomplete through the byte, &str and auto entry points; every proper prefix of every accepted v2 header "
              "yields exactly Incomplete(k) / Partial(k-16, length); is_complete = !is_incomplete; Ok is never incomplete; the "
-             "re-parse-after-every-read loop returns the one-shot header for every split into reads (C05_stream_v1/v2). "
-             "Case analysis over every cut position of every line shape, no bound. Tie: 8M prefix cases per quick run.",
-        ref="7-C05", technique="Coq proof (every cut point of every accepted shape) + exhaustive-prefix differential check"),
+             "re-parse-after-every-read loop returns the one-shot header for every split into reads (C05_stream_v1/v2), and a "
+             "receiver of several pipelined headers of both versions ends, for every cutting of the stream into reads, in the "
+             "state of a one-shot drain (C05_reads_equal_one_shot, C05_stream_pipeline; Proofs/StreamPipe.v). "
+             "Case analysis over every cut position of every line shape, no bound. Tie: 8M prefix cases per quick run, plus "
+             "pipelined buffers delivered in six cuttings through the same receiver in the harness and in the model.",
+        ref="7-C05", technique="Coq proof (every cut point of every accepted shape; induction over reads and over pipelined headers) + exhaustive-prefix differential check"),
     "C06": dict(
         text="Theorems C06/C06_accepts/C06_exclusive/C06_incomplete/C06_v2_first/C06_possible (Props/C06.v): the auto-detecting "
              "parser returns the v2 result when it is a success or incomplete and the v1 result otherwise, tagged accordingly; "
@@ -138,7 +144,7 @@ CLAIMED = {
              "(Proofs/Roles.v, resting on the C08 and C07 round trips) carry the roles end to end: for every pair of socket "
              "addresses, the converted value formatted as a v1 line / built as a v2 header and parsed back has the pair's "
              "(source ip, source port, destination ip, destination port); C19_wire_layout / C19_text_layout fix the order on the "
-             "wire and in the text; C19_mixed the unknown / unspecified encodings of a mixed pair. Tie: the real IPv4::new / "
+             "wire and in the text; C19_mixed the unknown / unspecified encodings of a mixed pair; C19_cross_version: both versions of one pair decode to the same endpoints. Tie: the real IPv4::new / "
              "IPv6::new / Unix::new / new_tcp4 / new_tcp6 / From impls compared field by field with the model and with the inputs "
              "on 8k tuples whose components are pairwise different (all four SocketAddr combinations, flow-info and scope set, "
              "Unix paths differing in one byte), and every pair additionally carried through Display->parse and Builder->parse "
